@@ -138,7 +138,8 @@ def run(prop, repo, seed=0):
             res.setdefault("repairs", 0)
             res.setdefault("repairs_silent", 0)
             res["repairs"] += 1
-            remaining = [k for k, _ in payload if k[1] == m["gone"]] if status == "ok" else ["analysis-error"]
+            # the findings that must vanish: those of the named rule (and, when given, of the named construct only — a rule may have several known findings)
+            remaining = [k for k, _ in payload if k[1] == m["gone"] and (m.get("construct") is None or k[4] == m["construct"])] if status == "ok" else ["analysis-error"]
             if not remaining and not new:
                 res["repairs_silent"] += 1
             else:
